@@ -6,6 +6,13 @@
     piri.resolve <base> <ref>         → ok <state> | err-base <class> | err-ref <class> | panic
     piri.chain <base> <ref1> <ref2> … → one outcome per step separated by ';' (stops after the first non-ok)
     piri.base <s>                     → root,directory,resource,query,fragment (`-1` absent) | err <class> | panic
+    piri.hist <base> <op> …           → history over the whole exported API on one value, one outcome per step separated
+                                         by ';' (stops after the first non-ok). <op> = D (DropFragment) | U (URL() copy
+                                         overwritten) | P:<r> (Parse) | Q:<r> (ResolveReference of ParseIRI(r) after
+                                         DropFragment) | V:<b> (ParseIRI(b).ResolveReference(cur)) | C:<r> (child
+                                         = Parse(r), child.DropFragment(), cur reported) | B:<r> (NewBaseIRI(cur), its
+                                         indices, then its Parse / ResolveReference). Step = ok <state>,IsAbs[,r/d/res/q/f]
+    piri.dropspec <s>                 → Spec.RFC3986: recompose (split s without its fragment component)
     piri.class <p|r> <a> <b>          → names of the known-deviation classes (Props/C12Defs.classes)
     piri.hyp <p|r> <a> <b>            → 0|1: the hypothesis of parse_string_identity_partial (p: on a) /
                                          resolve_eq_rfc_partial or resolve_abs_identity_partial
@@ -56,6 +63,25 @@ def chainSteps : ParsedIRI → List Str → List String
     | .ok p => ("ok " ++ showState p) :: chainSteps p rs
     | other => [showParseRes "err-ref" other]
 
+def showIdxs (i : BaseIdx) : String :=
+  String.intercalate "/" [showIdx i.root, showIdx i.directory, toString i.resource, showIdx i.query, showIdx i.fragment]
+
+def showHStep : HStep → String
+  | .ok p idx => "ok " ++ showState p ++ "," ++ b01 p.isAbs ++ (match idx with | none => "" | some i => "," ++ showIdxs i)
+  | .err e => "err-ref " ++ errName e
+  | .panic => "panic"
+
+def hopOfTok (t : String) : Option HOp :=
+  match t.toList with
+  | ['D'] => some HOp.drop
+  | ['U'] => some HOp.urlCopy
+  | 'P' :: ':' :: 'x' :: rest => (unhexChars rest).map HOp.parse
+  | 'Q' :: ':' :: 'x' :: rest => (unhexChars rest).map HOp.refDrop
+  | 'V' :: ':' :: 'x' :: rest => (unhexChars rest).map HOp.under
+  | 'C' :: ':' :: 'x' :: rest => (unhexChars rest).map HOp.childDrop
+  | 'B' :: ':' :: 'x' :: rest => (unhexChars rest).map HOp.viaBase
+  | _ => none
+
 def modeOfNat : Nat → Option Mode
   | 1 => some .path | 2 => some .pathSegment | 3 => some .host | 4 => some .zone
   | 5 => some .userPassword | 6 => some .queryComponent | 7 => some .fragment | _ => none
@@ -79,6 +105,16 @@ def handle (op : String) (args : List String) : Option String :=
     pure (match parseIRI b with
       | .error e => "err-base " ++ errName e
       | .ok bp => String.intercalate ";" (chainSteps bp rs))
+  | "hist", b :: os => do
+    let b ← bytesTok b
+    let os ← os.mapM hopOfTok
+    pure (match parseIRI b with
+      | .error e => "err-base " ++ errName e
+      | .ok bp => String.intercalate ";" ((runHist bp os).map showHStep))
+  | "dropspec", [s] => do
+    -- spec side of DropFragment: RFC 3986 5.3 recomposition of the components without the fragment component
+    let s ← bytesTok s
+    pure (tokOfBytes (Spec.RFC3986.recompose { Spec.RFC3986.split s with fragment := none }))
   | "base", [s] => do
     let s ← bytesTok s
     pure (match parseIRI s with
